@@ -53,7 +53,18 @@ impl<'a> AddSpecImpl<Vector{D}> for &'a Point{D} {
 impl<'a> core::ops::Add<Vector{D}> for &'a Point{D} { type Output = Point{D};
     #[verifier::external_body] fn add(self, rhs: Vector{D}) -> (r: Point{D}) { unimplemented!() } }
 
+// `u.as_ref() * s` (SurfacePoint::at_distance): &Vector * f64
+impl<'a> MulSpecImpl<f64> for &'a Vector{D} {
+    open spec fn obeys_mul_spec() -> bool { true }
+    open spec fn mul_req(self, rhs: f64) -> bool { true }
+    open spec fn mul_spec(self, rhs: f64) -> Vector{D} { v_scale(*self, rv(rhs)) }
+}
+impl<'a> core::ops::Mul<f64> for &'a Vector{D} { type Output = Vector{D};
+    #[verifier::external_body] fn mul(self, rhs: f64) -> (r: Vector{D}) { unimplemented!() } }
+
 impl UnitVec{D} {
+    #[verifier::external_body]
+    pub fn as_ref(&self) -> (r: &Vector{D}) ensures *r == u_vec(*self) { unimplemented!() }
     // `Unit<SVector>` derefs to the vector: `u.dot(&v)`
     #[verifier::external_body]
     pub fn dot(&self, o: &Vector{D}) -> (r: f64) ensures rv(r) == v_dot(u_vec(*self), *o) { unimplemented!() }
@@ -64,6 +75,22 @@ impl Vector{D} {
     // `v.dot(&u)` with `u: Unit<SVector>` (deref coercion of the argument), made explicit by an R11 subst
     #[verifier::external_body]
     pub fn dot_unit(&self, o: &UnitVec{D}) -> (r: f64) ensures rv(r) == v_dot(*self, u_vec(*o)) { unimplemented!() }
+    // nalgebra `norm_squared` / `magnitude` / `magnitude_squared`: |v|^2, |v|, |v|^2 (so that a rewrite of a length test
+    // in terms of these stays inside the verifier)
+    #[verifier::external_body]
+    pub fn norm_squared(&self) -> (r: f64) ensures rv(r) == v_norm(*self) * v_norm(*self) { unimplemented!() }
+    #[verifier::external_body]
+    pub fn magnitude(&self) -> (r: f64) ensures rv(r) == v_norm(*self) { unimplemented!() }
+    #[verifier::external_body]
+    pub fn magnitude_squared(&self) -> (r: f64) ensures rv(r) == v_norm(*self) * v_norm(*self) { unimplemented!() }
+}
+// the length test `|v| < 1e-6` in squared form: for t >= 0,  |v|^2 < t^2  <==>  |v| < t   (verified, not assumed)
+pub proof fn lemma16_sq_lt(n: real, t: real)
+    requires n >= 0real, t >= 0real
+    ensures (n * n < t * t) == (n < t), (n * n <= t * t) == (n <= t)
+{
+    assert((n * n < t * t) == (n < t)) by (nonlinear_arith) requires n >= 0real, t >= 0real;
+    assert((n * n <= t * t) == (n <= t)) by (nonlinear_arith) requires n >= 0real, t >= 0real;
 }
 // |s*v| = |s| |v|
 pub axiom fn ax16_norm_scale(v: Vector{D}, s: real) ensures v_norm(v_scale(v, s)) == (if s >= 0real { s } else { -s }) * v_norm(v);
